@@ -173,5 +173,78 @@ theorem getAllDenoms_run (w : Nft.World) (hwf : WF w) (hp : Pnft.PInv (abs w)) :
       P.pure_eq]
     rfl
 
+/-! ## the gRPC query server -/
+
+/-- `for x in l { if p(x) { acc = append(acc, x) } }` over a list of non-nil pointers -/
+theorem forIn_filterSome {α : Type} (l : List α) (p : α → Bool)
+    (body : Option α → List (Option α) → P (ForInStep (List (Option α))))
+    (hb : ∀ x ∈ l, ∀ acc, body (some x) acc = P.ok (.yield (if p x then acc ++ [some x] else acc))) :
+    ∀ acc, forIn (l.map some) acc body = P.ok (acc ++ (l.filter p).map some) := by
+  induction l with
+  | nil => intro acc; simp only [List.map_nil, List.forIn_nil, List.filter_nil, List.append_nil]; rfl
+  | cons x l ih =>
+    intro acc
+    simp only [List.map_cons, List.forIn_cons]
+    rw [hb x (by simp) acc]
+    simp only [P.ok_bind]
+    rw [ih (fun y hy => hb y (List.mem_cons_of_mem _ hy))]
+    rcases Bool.eq_false_or_eq_true (p x) with h | h
+    · simp [h, List.filter_cons]
+    · simp [h, List.filter_cons]
+
+/-- the model's view of a `types.Denom` -/
+def toD (d : pnfttypes.Denom) : Pnft.Class :=
+  Pnft.newClass d.Id d.Name d.Symbol d.Description d.Uri d.UriHash d.Data d.Owner
+
+theorem toD_denomOf (c : Nft.Class) : toD (denomOf c) = toClass c := rfl
+
+theorem filter_mapVals {V W : Type} (f : V → W) (q : W → Bool) (m : Map V) :
+    (Map.mapVals f m).filter (fun e => q e.2) = Map.mapVals f (m.filter fun e => q (f e.2)) := by
+  unfold Map.mapVals
+  induction m with
+  | nil => rfl
+  | cons e m ih =>
+    simp only [List.map_cons, List.filter_cons]
+    rcases Bool.eq_false_or_eq_true (q (f e.2)) with h | h
+    · simp only [h, if_true, List.map_cons, ih]
+    · simp only [h, Bool.false_eq_true, if_false, ih]
+
+/-- **`Query/DenomsByOwner`** (the repaired F7): the translated handler returns, in store order, exactly the denoms
+whose recorded owner string is the requested one — the model's `queryDenomsByOwner` -/
+theorem denomsByOwner_refines (w : Nft.World) (hwf : WF w) (hp : Pnft.PInv (abs w))
+    (req : pnfttypes.QueryDenomsByOwnerRequest) :
+    ∃ l : List pnfttypes.Denom,
+      pnftkeeper.Keeper.DenomsByOwner (some req) w = P.ok (some { Denoms := l.map some }, none, w) ∧
+      l.map toD = Pnft.queryDenomsByOwner (abs w) req.Owner := by
+  refine ⟨((w.classes.map fun e => denomOf e.2).filter fun d => decide (d.Owner = req.Owner)), ?_, ?_⟩
+  · unfold pnftkeeper.Keeper.DenomsByOwner
+    simp only [Option.isNone_some, Bool.false_eq_true, if_false, getAllDenoms_run w hwf hp, P.ok_bind, Option.isNone_none,
+      Bool.not_true]
+    have hm : (w.classes.map fun e => some (denomOf e.2)) = (w.classes.map fun e => denomOf e.2).map some := by
+      simp [List.map_map, Function.comp_def]
+    rw [hm, forIn_filterSome (w.classes.map fun e => denomOf e.2) (fun d => decide (d.Owner = req.Owner)) _ ?_ default]
+    · simp only [P.ok_bind, P.pure_eq]; rfl
+    · intro x _ acc
+      simp only [deref_some, P.ok_bind]
+      by_cases h : x.Owner = req.Owner
+      · simp only [h, decide_true, if_true]; rfl
+      · simp only [h, decide_false, Bool.false_eq_true, if_false]; rfl
+  · unfold Pnft.queryDenomsByOwner
+    rw [show (abs w).classes = Map.mapVals toClass w.classes from rfl]
+    rw [filter_mapVals toClass (fun c => decide (c.owner = req.Owner)) w.classes]
+    unfold Map.mapVals
+    simp only [List.map_map, Function.comp_def, List.filter_map]
+    rfl
+
+/-- the single-item and listing endpoints are thin wrappers: a nil request is an `InvalidArgument`, anything else is
+the keeper function's answer -/
+theorem pnftQuery_refines (bech : Go.Bech32) (w : Nft.World) (req : pnfttypes.QueryPNFTRequest) :
+    pnftkeeper.Keeper.PNFT bech (some req) w =
+      (pnftkeeper.Keeper.GetPNFT bech req.DenomId req.Id w).bind fun t =>
+        if (!t.2.1.isNone) = true then P.ok (none, t.2.1, t.2.2) else P.ok (some { Pnft := t.1 }, none, t.2.2) := by
+  unfold pnftkeeper.Keeper.PNFT
+  simp only [Option.isNone_some, Bool.false_eq_true, if_false, deref_some, P.ok_bind]
+  rfl
+
 end
 end Panacea.Refine.Pnft
